@@ -216,7 +216,8 @@ def nf_ref(theory_card, q2):
         return theory_card["NfFF"]
     nf = 3
     for m, k in (("mc", "kcThr"), ("mb", "kbThr"), ("mt", "ktThr")):
-        if (theory_card[m] * theory_card[k]) ** 2 <= q2:
+        mk = theory_card[m] * theory_card[k]
+        if mk * mk <= q2:  # correctly rounded (m k)^2
             nf += 1
     return nf
 
